@@ -615,4 +615,18 @@ func runC20(o *Out, rng *Rng, tier string, replay string) {
 			os.RemoveAll(specs[k].Dir)
 		}
 	}
+	// (C) the order of a simulated day observed on the real Engine.Run: the simulation's database is recorded and the
+	// engine calls of every modelDay are reconstructed from the writes to the travellers table (c20trace.go)
+	nTrace := 8
+	if tier == "thorough" {
+		nTrace = 60
+	} else if tier == "search" {
+		nTrace = 20
+	}
+	traceBase := filepath.Join(o.dir, "traces")
+	for k := 0; k < nTrace; k++ {
+		sp := genSimConfig(rng.Fork(), traceBase, k)
+		runTrace(o, sp, 120*time.Second)
+		os.RemoveAll(sp.Dir)
+	}
 }
